@@ -20,6 +20,7 @@ CONSTANTS N,
           Move,                 \* "dp" | "prg" | "sub"
           RegraftDegreeFactor,  \* FALSE as specified; TRUE = attachment weight multiplied by (#children of target + 1) (deviation F6)
           DumpRows,             \* print the single-step rows of every forest as exact rationals (conformance oracle)
+          RowsOnly,             \* TRUE: only walk the forests (for DumpRows on sizes where the push-forward is not needed)
           AllOutlierWhole       \* TRUE: on a tree whose data are all outliers the subtree move resamples the whole tree;
                                 \* FALSE: it cannot move (as implemented before the fix it raises, see C19) - deviation F7
 Data == 0..(N - 1)
@@ -79,10 +80,10 @@ NoRow == [src |-> Empty, rows |-> << >>, has |-> FALSE]
 Init == todo = All /\ cur = NoRow /\ acc = [k \in Keys |-> ZeroF]
 Compute == /\ ~cur.has /\ todo # {}
            /\ LET s == CHOOSE x \in todo : TRUE IN
-                cur' = [src |-> s, rows |-> [k \in Keys |-> RowFor(s, k)], has |-> TRUE]
+                cur' = [src |-> s, rows |-> IF RowsOnly THEN << >> ELSE [k \in Keys |-> RowFor(s, k)], has |-> TRUE]
            /\ UNCHANGED <<todo, acc>>
 Accumulate == /\ cur.has
-              /\ acc' = [k \in Keys |-> [t \in All |-> FAdd(acc[k][t], FMul(W1(cur.src), cur.rows[k][t]))]]
+              /\ acc' = IF RowsOnly THEN acc ELSE [k \in Keys |-> [t \in All |-> FAdd(acc[k][t], FMul(W1(cur.src), cur.rows[k][t]))]]
               /\ todo' = todo \ {cur.src}
               /\ cur' = NoRow
 \* exact rational rows (conformance with the implementation's per-decision probability vectors)
@@ -93,9 +94,9 @@ PRGRat(s, v) == IF RestF(s.f, v) = {} THEN {} ELSE
 RowsRec(s) == [s |-> s, dp |-> {[d |-> d, row |-> DPRat(s, d)] : d \in Data}, prg |-> {[v |-> v, row |-> PRGRat(s, v)] : v \in s.f}]
 EmitRows == (DumpRows /\ cur.has) => PrintT(ToJson(RowsRec(cur.src)))
 Next == Compute \/ Accumulate
-RowsSumToOne == cur.has => \A k \in Keys : FoldFunction(FAdd, 0, cur.rows[k]) = 1
+RowsSumToOne == (cur.has /\ ~RowsOnly) => \A k \in Keys : FoldFunction(FAdd, 0, cur.rows[k]) = 1
 BadTargets == {<<k, t>> \in Keys \X All : acc[k][t] # W1(t) % P}
-Stationary == (todo = {}) => BadTargets = {}
+Stationary == (todo = {} /\ ~RowsOnly) => BadTargets = {}
 \* every move is defined on every forest a run can hold (no stuck state = no exception): the data-point scan and
 \* prune-regraft always have a candidate; the subtree move needs a clone to start from unless it falls back to the
 \* whole-tree update on an all-outlier tree (deviation AllOutlierWhole = FALSE: stuck there - finding F7)
